@@ -52,7 +52,7 @@ WiringPoints ==
 
 (* ---- family "env" (C03 C12): argv, environment, working directory, program resolution, signal state ---- *)
 EnvBase == [argvx |-> <<>>, envb |-> 0, envx |-> <<"none">>, penv |-> <<"P=1">>, wd |-> "", prog |-> "/bin/c",
-            cwd |-> "/w", cwdlen |-> 0, mask |-> <<>>, disp |-> <<>>]
+            cwd |-> "/w", cwdlen |-> 0, mask |-> <<>>, disp |-> <<>>, limit |-> 32]
 ArgvXs == {<<>>, <<"a b">>, <<"", "q\"x", "b\\s", "k=v", " ", "-x">>, <<"a", "a", "a">>}
 EnvXs == {<<"none">>, <<>>, <<"A=1">>, <<"B=2", "A=3", "=x", "C", "A=1">>}
 PEnvs == {<<>>, <<"P=1">>, <<"P=1", "Q=", "A=0">>}
@@ -67,6 +67,7 @@ EnvPoints ==
          \cup {[EnvBase EXCEPT !.wd = w, !.prog = p, !.cwd = c] : w \in {"", "/d"}, p \in Progs, c \in Cwds}
          \cup {[EnvBase EXCEPT !.wd = "/d", !.prog = p, !.cwdlen = l] : p \in {"./c", "/bin/c"}, l \in CwdLens}
          \cup {[EnvBase EXCEPT !.mask = ms, !.disp = d, !.wd = w] : ms \in Masks, d \in Disps, w \in {"", "/d"}}
+         \cup {[EnvBase EXCEPT !.limit = -1, !.mask = ms] : ms \in {<<>>, <<15>>}}   \* no descriptor limit: start must refuse cleanly
   IN {Opt(<<U, U, U>>, NoSh, -1, FALSE, TRUE) @@ [x |-> v] : v \in vary}
 
 \* scenarios for the fault sweep (C04 C05 C06 C12): every redirect kind at some stream, the shorthands, start-up input,
@@ -95,13 +96,14 @@ ExpProg == IF X.wd # "" /\ IsRel(X.prog) THEN Joined(X.cwd, X.prog) ELSE X.prog
 ExpProgLen == IF X.wd # "" /\ IsRel(X.prog) THEN (IF X.cwdlen = 1 THEN 1 ELSE X.cwdlen + 1) + Len(X.prog) ELSE Len(X.prog)
 ExpEnv == (IF X.envb = 0 THEN X.penv ELSE <<>>) \o (IF X.envx = <<"none">> THEN <<>> ELSE X.envx)
 ENAMETOOLONG == -36
+EMFILE == -24
 
 LowHandle(pt) == \E s \in 1..3 : (pt.rd[s].h \in {1, 2}) \/ (pt.rd[s].f \in {1, 2})
 Init == /\ phase = "pick" /\ o \in Points /\ k \in {[std |-> s, hasInput |-> FALSE] : s \in StdSets}
         /\ LowHandle(o) => k.std = <<TRUE, TRUE, TRUE>>
 
 RJ(r) == <<r.t, r.h, r.f, r.p>>
-CfgRec == [e |-> "cfg", cap |-> 8, limit |-> 32, fds |-> [s \in 1..3 |-> IF k.std[s] THEN 1 ELSE 0], extra |-> Extras]
+CfgRec == [e |-> "cfg", cap |-> 8, limit |-> IF Family \in {"env", "faultscen"} THEN X.limit ELSE 32, fds |-> [s \in 1..3 |-> IF k.std[s] THEN 1 ELSE 0], extra |-> Extras]
           @@ (IF Family \in {"env", "faultscen"}
                 THEN [env |-> X.penv, cwd |-> X.cwd, cwdlen |-> X.cwdlen, mask |-> X.mask, disp |-> X.disp,
                       fs |-> <<<<"/w/./c", 3>>, <<"/w/sub/c", 3>>, <<"/w/sub//c", 3>>, <<"/./c", 3>>, <<"/sub/c", 3>>, <<"/sub//c", 3>>,
@@ -123,6 +125,9 @@ Expected ==
        [] v.v = "late" -> common @@ [r |-> EINVAL, nfd |-> BaseFds, left |-> 0]
        [] v.v = "unspecified" -> [e |-> "ret", mon |-> <<>>]
        [] v.v = "accept" /\ o.fork -> [e |-> "ret", mon |-> <<>>, r |-> 1]
+       [] Family = "env" /\ X.limit = -1 ->
+            \* an unlimited descriptor table cannot be swept by the child: the documented refusal is "too many open files"
+            common @@ [r |-> EMFILE, nfd |-> BaseFds, left |-> 0, pmask |-> X.mask, pdisp |-> X.disp]
        [] Family = "env" /\ X.cwdlen > 0 /\ ExpProgLen >= 4096 ->
             \* beyond the path-length limit the only requirement is a clean failure
             common @@ [r |-> ENAMETOOLONG, nfd |-> BaseFds, left |-> 0, pmask |-> X.mask, pdisp |-> X.disp]
